@@ -292,6 +292,10 @@ func run(t *testing.T, plan any, keep bool) *simcheck.Outcome {
 				if err == nil {
 					use(cachekit.IndexPath(dir, id), now)
 					use(cachekit.DataPath(dir, e.OutputID), now)
+				} else if _, serr := os.Stat(cachekit.IndexPath(dir, id)); serr == nil {
+					// the index entry was found and read (that is a use of it) although the lookup as a
+					// whole failed because an earlier Trim had removed the output file
+					use(cachekit.IndexPath(dir, id), now)
 				}
 			case "outputfile":
 				name := c.OutputFile(outIDs[st.Content])
